@@ -6,7 +6,7 @@
 
 package limits
 
-//@ unit max_bytes_reader props=C17 filter=`maxBytesReader\)\.Read$`
+//@ unit max_bytes_reader frames=on props=C17 filter=`maxBytesReader\)\.Read$`
 //@ func (*maxBytesReader).Read
 //@   check overflow
 //@   requires l != nil && l.n >= 0
@@ -16,7 +16,7 @@ package limits
 //@   ensures [within] old(l.err) == nil ==> (0 <= n && int64(n) <= old(l.n) && n <= len(old(p)))
 //@   ensures [accounting] (old(l.err) == nil && l.n != 0) ==> l.n == old(l.n) - int64(n)
 
-//@ unit limit_handler props=C17,C12 filter=`limits\.Limit\)\.ServeHTTP$`
+//@ unit limit_handler frames=on props=C17,C12 filter=`limits\.Limit\)\.ServeHTTP$`
 //@ ghost calledNext int
 //@ extern invoke:(github.com/tmpim/casket/caskethttp/httpserver.Handler).ServeHTTP
 //@   modifies ghost:calledNext
